@@ -126,3 +126,5 @@ class MessageBuffer:
 
     internal_messages: dict[tuple[int, int, int], Message] = field(default_factory=dict)
     set_messages: dict[tuple[int, int, int], Message] = field(default_factory=dict)
+    # Ids of nodes that have been asked to present themselves and have not done so yet.
+    presentation_requests: set[int] = field(default_factory=set)
